@@ -8,7 +8,12 @@ parameters the defaults switch off take part)  x  every count parameter (n, n_sh
 Nlayers, n_aggreg ...) at its smallest meaningful values (lower limit or 1, and 2); the RATIO family: for every
 pair of length-typed parameters the two default values swapped and the second at {1/8, 1/2, 2, 8} x the first,
 every dimensionless "ratio" parameter inverted and at 1/8..8, each judged on a wide q menu q*length in
-{0.05, 0.7, 3, 20} for both lengths (so both sides of every ratio- or q*length-dependent branch are visited)  x  parameter sets on each base (the base; each parameter
+{0.05, 0.7, 3, 20} for both lengths (so both sides of every ratio- or q*length-dependent branch are visited); the
+NEAR-MATCHED family: all SLDs within a few delta of one value, delta in {1e-2, 1e-3, 1e-4, 1e-6}, mu in {0.5, 2, 10},
+background 0 (absolute "contrast matched" thresholds are crossed in both directions); the UNITS family: the unit of
+every parameter and every expanded vector element read from kernel_parameters, call_parameters, user_parameters()
+and the SasView details table must agree (all models of the library), and the scaling laws take the unit of a vector
+element from call_parameters  x  parameter sets on each base (the base; each parameter
 moved to two seed-rotated non-default values; thorough: every pair)  x  1-D / 2-D (oriented models)  x  lambda in {2, 0.5, 1.3}  x
 mu in {1.7, 0.5}  x  3 q points  (+ every effective-radius mode through call_Fq).
 
@@ -126,15 +131,30 @@ def defaults(info):
     return pars
 
 
+def call_units(info):
+    """{call name: unit string} as exposed by parameters.call_parameters (vector elements expanded by the library)"""
+    return {p.name: p.units for p in info.parameters.call_parameters}
+
+
 def rescale(info, pars, lam, mu, exps):
+    """scalars: unit of the table row; expanded vector elements: the unit call_parameters shows for THAT element (the
+    number the user enters next to it), applied as a correction to the row's exponent so candidate assignments of the
+    exponent search still act on the row"""
     out = dict(pars)
+    cu = None
     for rid, u, names, ctl, p in rows(info):
-        if u == SLD_UNIT:
-            f = mu
-        else:
-            f = lam ** exps[rid]
-        if f != 1.0:
-            for n in names:
+        for n in names:
+            un = u
+            if len(names) > 1:
+                cu = cu or call_units(info)
+                un = cu.get(n, u)
+            if un == SLD_UNIT:
+                f = mu
+            elif u == SLD_UNIT:
+                f = lam ** UNIT_EXP.get(un, 0)
+            else:
+                f = lam ** (exps[rid] + UNIT_EXP.get(un, UNIT_EXP[u]) - UNIT_EXP[u])
+            if f != 1.0:
                 out[n] = pars[n] * f
     return out
 
@@ -304,6 +324,9 @@ def setup(ctx):
 
 def cases(ctx):
     out = []
+    # the unit of every parameter, read from every table the library exposes, for every model of the library
+    for m in build.all_models():
+        out.append({"model": m, "units": True})
     for m in models():
         info = build.info(m)
         dims = ["1d"] + (["2d"] if info.parameters.orientation_parameters else [])
@@ -328,6 +351,10 @@ def cases(ctx):
                     out.append({"model": m, "dim": dim, "ratio": [a, b]})
                 for rid, _, _ in ratio_rows(info):
                     out.append({"model": m, "dim": dim, "ratio": [rid]})
+            # near-matched contrasts: every SLD within a few delta of one value, delta in 1e-2 .. 1e-6, mu in 0.5, 2, 10
+            if len(sld_names(info)) >= 2 and (dim == "1d" or not ctx.quick):
+                for perm in range(2):
+                    out.append({"model": m, "dim": dim, "matched": perm})
             if act:
                 # second base: zero defaults switched on, counts raised; single moves on top of it in BOTH tiers
                 out.append({"model": m, "dim": dim, "vary": [], "base": "activated"})
@@ -348,6 +375,7 @@ class Ev(object):
         self.ncalls = 0
         self.q = None if q is None else np.asarray(q, float)     # custom |q| list (ratio family): local tolerance
         self.noise = self.noisy = None
+        self.rtol_extra = 0.0
 
     def for_dim(self, dim):
         """an evaluator of the same model for another q shape (the exponent search works in 1-D)"""
@@ -395,7 +423,7 @@ def residual(ev, pars, lam, mu, exps, I0=None, power=3):
     if not (np.all(np.isfinite(d0)) and np.all(np.isfinite(d1))):
         return None, d1, d0
     if ev.q is None:
-        tol = RTOL * np.abs(d0) + 1e-11 * np.max(np.abs(d0)) + 1e-14 * abs(bg) * (1 + k) + 1e-300
+        tol = (RTOL + ev.rtol_extra) * np.abs(d0) + 1e-11 * np.max(np.abs(d0)) + 1e-14 * abs(bg) * (1 + k) + 1e-300
     else:
         # wide q menu / extreme ratios: I spans up to 16 decades.  I = F^2 with F a sum of terms of size F(0), so
         # rounding noise in I is ~ u * kappa * sqrt(I * I(0)); the slack 1e-11 sqrt(|I| max|I|) allows kappa ~ 1e5 and
@@ -408,6 +436,130 @@ def residual(ev, pars, lam, mu, exps, I0=None, power=3):
             tol = tol + 16.0 * k * ev.noise
             tol = np.where(ev.noisy, np.inf, tol)
     return float(np.max(np.abs(d1 - d0) / tol)), d1, d0
+
+
+def sld_names(info):
+    """call names carrying the SLD unit in table order (elements 1 and 2 of vectors; further elements follow element 2)"""
+    out = []
+    for rid, u, names, ctl, p in rows(info):
+        if u == SLD_UNIT:
+            out.extend(names[:2])
+    return out
+
+
+MATCH_DELTAS = [1e-2, 1e-3, 1e-4, 1e-6]
+MATCH_MUS = [0.5, 2.0, 10.0]
+MATCH_W = [1.0, 0.0, -0.7, 1.9, -1.6, 2.7, 0.45, -2.3]     # pairwise differences 0.45 .. 5: every contrast is O(delta)
+
+
+def _run_matched(case, ctx):
+    """
+    mu^2 law next to contrast matching: all SLDs sit within a few delta of one reference value (so the signal consists
+    of the small contrasts only - nothing large can hide them), delta in {1e-2, 1e-3, 1e-4, 1e-6} (absolute, in
+    1e-6/Ang^2), mu in {0.5, 2, 10}: an absolute "these two are matched" threshold anywhere in 1e-7 .. 1e-1 is crossed
+    upwards by one mu and downwards by another.  background = 0 (the signal is ~1e-12 of the default one); tolerance
+    = 1e-9 + 64 eps max|SLD| / min contrast (mu (a - b) against mu a - mu b).
+    """
+    r = R()
+    m = build.model(case["model"])
+    info = m.info
+    dim = case["dim"]
+    decl = declared(info)
+    names = sld_names(info)
+    k0 = ctx.seed + (3 if case["matched"] else 0)
+    w = [MATCH_W[(k0 + i) % len(MATCH_W)] * (-1.0 if case["matched"] else 1.0) for i in range(len(names))]
+    follow = {}
+    for rid, u, nm, ctl, p in rows(info):
+        if u == SLD_UNIT:
+            for n in nm[2:]:
+                follow[n] = nm[1]
+    base = defaults(info)
+    base["background"] = 0.0
+    sref = max(1.0, abs(float(base[names[-1]])))
+    ev = Ev(m, dim)
+    reported = set()
+    for delta in MATCH_DELTAS:
+        pars = dict(base)
+        for n, wi in zip(names, w):
+            pars[n] = sref + wi * delta
+        for n, src in follow.items():
+            pars[n] = pars[src]
+        cmin = min(abs(a - b) for a, b in itertools.combinations([pars[n] for n in names], 2))
+        desc = "%s %s pars=%s" % (case["model"], dim, {k: v for k, v in sorted(pars.items())})
+        try:
+            I0 = ev.I(pars)
+        except Exception as exc:  # noqa
+            r.fail("%s: call_kernel raised %r" % (desc, exc), {"model": case["model"], "clause": "raises"})
+            continue
+        if not np.all(np.isfinite(I0)):
+            r.inconc("non-finite I at the unscaled point")
+            continue
+        nt = bool(np.any(np.abs(I0) > 0))
+        for mu in MATCH_MUS:
+            ev.rtol_extra = 64.0 * 2.2e-16 * (sref + 3 * delta) * max(mu, 1.0) / cmin
+            try:
+                res, d1, d0 = residual(ev, pars, 1.0, mu, decl, I0)
+            except Exception as exc:  # noqa
+                r.fail("%s mu=%g: call_kernel raised %r" % (desc, mu, exc), {"model": case["model"], "clause": "raises"})
+                continue
+            if res is None:
+                r.inconc("non-finite I at the scaled point")
+            elif res <= 1.0:
+                r.ok(nt=nt, outcome="matched:%s" % ("nt" if nt else "flat"), branches=["near-matched-held"])
+            else:
+                key = ("mu2", "near-matched")
+                if key in reported:
+                    r.ok(nt=nt, outcome="FAIL-dup")
+                    continue
+                reported.add(key)
+                with np.errstate(all="ignore"):
+                    ratio = d1 / d0
+                r.fail("%s\n  contrasts between the SLDs are multiples %s of delta=%g; call_kernel(q, all SLDs x %g) = %s\n"
+                       "  expected mu^2 I = %s\n  observed/expected = %s"
+                       % (desc, [round(x, 2) for x in w], delta, mu, d1, d0, ratio),
+                       {"model": case["model"], "clause": "mu2", "context": "near-matched"}, nt=nt)
+    r.trans = ev.ncalls
+    return r
+
+
+def _run_units(case, ctx):
+    """the unit string of every parameter (every element of every vector) in every table the library exposes"""
+    r = R()
+    name = case["model"]
+    info = build.info(name)
+    P = info.parameters
+    want = {}
+    for p in P.kernel_parameters:
+        for n in ([p.id] if p.length == 1 else [p.id + str(k) for k in range(1, p.length + 1)]):
+            want[n] = p.units
+    tables = {"parameters.call_parameters": {p.name: p.units for p in P.call_parameters}}
+    controls = {p.length_control: p.length for p in P.kernel_parameters if p.length > 1 and p.length_control}
+    for is2d in (False, True):
+        for label, pars in (("{}", {}), ("max", dict(controls))):
+            try:
+                tables["parameters.user_parameters(%s, is2d=%s)" % (label if label == "{}" else pars, is2d)] = \
+                    {p.name: p.units for p in P.user_parameters(dict(pars), is2d=is2d)}
+            except Exception as exc:  # noqa
+                r.fail("%s: user_parameters raised %r" % (name, exc), {"model": name, "clause": "raises"})
+    try:
+        from sasmodels.sasview_model import make_model_from_info
+        inst = make_model_from_info(info)()
+        tables["SasviewModel().details"] = {k: v[0] for k, v in inst.details.items() if not k.endswith(".width")}
+    except Exception as exc:  # noqa
+        r.fail("%s: SasView wrapper raised %r" % (name, exc), {"model": name, "clause": "raises"})
+    nvec = 0
+    for tname, table in sorted(tables.items()):
+        for n, u in sorted(want.items()):
+            if n not in table:
+                continue
+            if table[n] != u:
+                r.fail("%s: %s shows unit %r for %r, the parameter table of the model file (kernel_parameters) declares %r"
+                       % (name, tname, table[n], n, u), {"model": name, "clause": "units-tables", "table": tname.split("(")[0]})
+            else:
+                vec = n not in [p.id for p in P.kernel_parameters]
+                nvec += vec
+                r.ok(nt=vec, outcome="units-agree", branches=["units-agree"] + (["units-agree-vector-element"] if vec else []))
+    return r
 
 
 def _run_ratio(case, ctx):
@@ -486,6 +638,10 @@ def _run_ratio(case, ctx):
 def run_case(case, ctx):
     if "ratio" in case:
         return _run_ratio(case, ctx)
+    if "matched" in case:
+        return _run_matched(case, ctx)
+    if case.get("units"):
+        return _run_units(case, ctx)
     r = R()
     _SEARCH_DIR[0] = ctx.scratch
     m = build.model(case["model"])
@@ -933,6 +1089,9 @@ def finish(ctx, report):
     for k in [k for k in report.branches if k.startswith("noisy:")]:
         del report.branches[k]
     report.coverage["models_with_numerically_noisy_q_points_excluded"] = noisy
+    report.require("near-matched-held", 300, "mu^2 law with every contrast within a few 1e-2 .. 1e-6 of matching")
+    report.require("units-agree", 1500, "unit strings compared between the tables")
+    report.require("units-agree-vector-element", 200, "unit strings of expanded vector elements compared")
     report.require("ratio-set", 300, "parameter sets of the ratio family (pairs of lengths swapped / at 1/8..8, ratios inverted)")
     report.require("ratio-order-inverted", 100, "sets in which the order of two lengths is the opposite of the defaults")
     report.require("ratio:swap", 50, "pairs of lengths with their default values swapped")
